@@ -85,15 +85,34 @@ func runBigCase(t *Tracer, m *Meta, r *rand.Rand, c *TrieCase, nq int, class str
 	if st2, _, _ := Reload(c, st); st2 != nil {
 		phases = append(phases, st2)
 	}
+	var freshAns []interface{}
+	var freshStat []interface{}
 	for pi, s := range phases {
 		items := []interface{}{}
-		for _, q := range qs {
-			items = append(items, bigItem(c, s, ret, idx, q))
+		for qi, q := range qs {
+			it := bigItem(c, s, ret, idx, q)
+			// what the FRESH trie answered to the same query (C05: a loaded trie answers
+			// identically, false positives included); in the fresh phase its own answers
+			own := []interface{}{it["id"], it["get"], it["rget"], it["srch"]}
+			if pi == 0 {
+				freshAns = append(freshAns, own)
+			}
+			it["fresh"] = freshAns[qi]
+			items = append(items, it)
 		}
 		stat := StatEv(s)
+		if pi == 0 {
+			freshStat = []interface{}{stat["keycnt"], stat["nodecnt"], stat["levels"]}
+		}
 		t.Emit(Ev{"ev": "obsbig", "params": params, "n": len(c.Keys), "nret": len(ret), "opt": c.Opt4[:], "hasvals": c.HasVals(), "enc": c.Enc,
-			"loaded": pi, "items": items, "keycnt": stat["keycnt"], "nodecnt": stat["nodecnt"], "statpan": stat["pan"]})
+			"loaded": pi, "items": items, "keycnt": stat["keycnt"], "nodecnt": stat["nodecnt"], "statpan": stat["pan"],
+			"stat3": []interface{}{stat["keycnt"], stat["nodecnt"], stat["levels"]}, "freshstat": freshStat})
 		m.Calls += 4 * len(qs)
+	}
+	if params["prop"] == "C05" {
+		// Marshal on a large trie: deterministic, of the advertised size, reproduced by a
+		// second build and by re-marshalling the loaded trie
+		t.Emit(McheckEv(c, st))
 	}
 	if b, err := st.Marshal(); err == nil {
 		if sl, err := ParseSlim(b); err == nil {
